@@ -14,8 +14,8 @@ EXTENDS BasicMachine, Json, IOUtils
 
 Rec == ndJsonDeserialize(IOEnv.TRACE)
 
-VARIABLES ci, l, m, ph, nint, hi, loose
-tvars == <<ci, l, m, ph, nint, hi, loose>>
+VARIABLES ci, l, m, ph, nint, hi, loose, nst
+tvars == <<ci, l, m, ph, nint, hi, loose, nst>>
 
 \* the sessions are validated in independent chunks so that TLC's workers share the load
 Chunk == IF "CHUNK" \in DOMAIN IOEnv THEN atoi(IOEnv.CHUNK) ELSE 100000000
@@ -25,6 +25,7 @@ Case == Rec[ci]
 Cur  == Case.cmds[l]
 
 Range(f) == {f[i] : i \in DOMAIN f}
+StepBound == 600000
 
 \* ---- comparing an observed response item with a specified one
 CodeOK(want, got) == IF want = AnyErr THEN got \notin {EInternal, EBreak} ELSE want = got
@@ -75,7 +76,7 @@ OutSoFar(mm) == IF mm.resp # <<>> /\ mm.resp[Len(mm.resp)].k = "out" THEN mm.res
 NOuts(mm) == Cardinality({i \in 1..Len(mm.resp) : mm.resp[i].k = "out"})
 
 Init == /\ ci \in ChunkStarts /\ hi = (IF ci + Chunk - 1 < Len(Rec) THEN ci + Chunk - 1 ELSE Len(Rec))
-        /\ l = 1 /\ m = InitM /\ ph = "feed" /\ nint = 0 /\ loose = FALSE
+        /\ l = 1 /\ m = InitM /\ ph = "feed" /\ nint = 0 /\ loose = FALSE /\ nst = 0
 
 \* commands after which the interpreter is at a statement boundary again
 Resyncs(c) == \/ c.k = "line"
@@ -83,13 +84,15 @@ Resyncs(c) == \/ c.k = "line"
 Feed == /\ ph = "feed" /\ ci <= hi /\ l <= Len(Case.cmds)
         /\ m' = Apply(m, Cur.cmd) /\ ph' = "run" /\ nint' = 0
         /\ loose' = (loose /\ ~Resyncs(Cur.cmd))
-        /\ UNCHANGED <<ci, l, hi>>
+        /\ nst' = 0 /\ UNCHANGED <<ci, l, hi>>
 
-\* sessions marked "big" (tens of thousands of statements: the memory-pool limits) are run in
-\* one step per command, without intermediate TLC states
+\* sessions marked "big" (tens of thousands of statements: the memory-pool limits) are run
+\* 500 statements per TLC state
 RunBig == /\ ph = "run" /\ m.mode = "run" /\ Case.big
-          /\ m' = RunToWait(m, 100000000) /\ UNCHANGED <<ci, l, ph, nint, hi, loose>>
+          /\ nst < StepBound /\ nst' = nst + 500
+          /\ m' = RunSteps(m, 500) /\ UNCHANGED <<ci, l, ph, nint, hi, loose>>
 Run  == /\ ph = "run" /\ m.mode = "run" /\ ~Case.big
+        /\ nst < StepBound /\ nst' = nst + 1
         /\ m' = Step(m) /\ UNCHANGED <<ci, l, ph, nint, hi, loose>>
 
 \* The interrupt landed between two opcodes of the statement about to be executed (or exactly
@@ -116,17 +119,17 @@ Intr == /\ ph = "run" /\ m.mode = "run" /\ nint < Cur.ints
         /\ IntrPin(m, Cur.intprobe)
         /\ m' = Interrupt(m) /\ nint' = nint + 1
         /\ loose' = (loose \/ m'.cont # NoCont)
-        /\ UNCHANGED <<ci, l, ph, hi>>
+        /\ UNCHANGED <<ci, l, ph, hi, nst>>
 
 AtWait == ph = "run" /\ m.mode \in {"ready", "input"}
 Good  == nint = Cur.ints /\ RespOK(m.resp, Cur.resp) /\ ProbeOK(m, Cur.probe, loose)
 
 Match == /\ AtWait /\ Good
-         /\ l' = l + 1 /\ ph' = "feed" /\ UNCHANGED <<ci, m, nint, hi, loose>>
+         /\ l' = l + 1 /\ ph' = "feed" /\ UNCHANGED <<ci, m, nint, hi, loose, nst>>
 
 NextCase == /\ ph = "feed" /\ ci <= hi /\ l > Len(Case.cmds)
             /\ PrintT(ToJson([T |-> "ACCEPT", id |-> Case.id]))
-            /\ ci' = ci + 1 /\ l' = 1 /\ m' = InitM /\ ph' = "feed" /\ nint' = 0 /\ loose' = FALSE /\ UNCHANGED hi
+            /\ ci' = ci + 1 /\ l' = 1 /\ m' = InitM /\ ph' = "feed" /\ nint' = 0 /\ loose' = FALSE /\ nst' = 0 /\ UNCHANGED hi
 
 \* this branch cannot explain the trace: say why, and go on with the next session
 Stuck == /\ AtWait /\ ~Good
@@ -136,19 +139,27 @@ Stuck == /\ AtWait /\ ~Good
                       ctl |-> m.ctl, dims |-> {<<a, m.dims[a]>> : a \in DOMAIN m.dims},
                       dptr |-> m.dptr, cont |-> m.cont, contx |-> m.contx, mode |-> m.mode,
                       col |-> m.col, tron |-> m.tron, fns |-> DOMAIN m.fns]))
-         /\ ci' = ci + 1 /\ l' = 1 /\ m' = InitM /\ ph' = "feed" /\ nint' = 0 /\ loose' = FALSE /\ UNCHANGED hi
+         /\ ci' = ci + 1 /\ l' = 1 /\ m' = InitM /\ ph' = "feed" /\ nint' = 0 /\ loose' = FALSE /\ nst' = 0 /\ UNCHANGED hi
 
 \* the session left the fragment the model defines: discard it (counted, never failed)
 Discard == /\ ph = "run" /\ m.mode = "oom"
            /\ PrintT(ToJson([T |-> "SKIP", id |-> Case.id, l |-> l, why |-> m.why]))
-           /\ ci' = ci + 1 /\ l' = 1 /\ m' = InitM /\ ph' = "feed" /\ nint' = 0 /\ loose' = FALSE /\ UNCHANGED hi
+           /\ ci' = ci + 1 /\ l' = 1 /\ m' = InitM /\ ph' = "feed" /\ nint' = 0 /\ loose' = FALSE /\ nst' = 0 /\ UNCHANGED hi
+
+\* the specified run of this command does not end within the bound (the k counter also keeps a
+\* cycling run from being mistaken for a finished search): if the interpreter did not finish
+\* within its opcode budget either, the session is set aside, else the trace is rejected
+Loops == /\ ph = "run" /\ m.mode = "run" /\ nst >= StepBound
+         /\ PrintT(ToJson([T |-> (IF Cur.wait = "budget" THEN "SKIP" ELSE "STUCK"), id |-> Case.id, l |-> l,
+                      why |-> "the specified run does not terminate", resp |-> m.resp, respok |-> FALSE, nint |-> nint]))
+         /\ ci' = ci + 1 /\ l' = 1 /\ m' = InitM /\ ph' = "feed" /\ nint' = 0 /\ loose' = FALSE /\ nst' = 0 /\ UNCHANGED hi
 
 \* fingerprint only what is not a function of the commands consumed so far (the listing and its
 \* analysis are determined by ci and l)
-View == <<ci, l, ph, nint, hi, loose, m.mode, m.pc, m.vars, m.dims, m.deft, m.fns, m.ctl, m.dptr, m.col,
+View == <<ci, l, ph, nint, hi, loose, nst, m.mode, m.pc, m.vars, m.dims, m.deft, m.fns, m.ctl, m.dptr, m.col,
           m.tron, m.ltr, m.cont, m.contx, m.ctlx, m.stale, m.inp, m.resp, m.dgen>>
 
-Next == Feed \/ Run \/ RunBig \/ Intr \/ Match \/ NextCase \/ Stuck \/ Discard
+Next == Feed \/ Run \/ RunBig \/ Intr \/ Match \/ NextCase \/ Stuck \/ Discard \/ Loops
 Spec == Init /\ [][Next]_tvars
 
 \* ---- invariants of the abstract machine, evaluated at every state of every trace
